@@ -585,6 +585,60 @@ def part_valgrind(c, bindir_rel, hx):
                          "report": (hits or [""])[0], "stderr_tail": "\n".join(lines[:25])})
 
 
+def part_valgrind_faults(c, bindir_rel, hx):
+    """error paths are where uninitialised / freed memory gets used: memcheck while the k-th read/write/fsync/close fails
+    (libvfault, activated only inside the tool through VFAULT_ONLY so that it passes through the valgrind launcher)"""
+    if not shutil.which("valgrind"):
+        return
+    lib = os.path.join(hx, "libvfault.so")
+    tools = tr.catalogue()
+    if c.tier == "quick":
+        tools = [t for t in tools if t.kind == "wrapper" or t.label in ("remove_long_lines", "shard", "dedupe-p", "commoncrawl_dedupe", "docenc-d")]
+    jobs = []
+    for t in tools:
+        # how many calls of each kind does the fault-free run make?
+        with tr.Scratch(SCRATCH, t) as w:
+            logp = os.path.join(w, "vf.log")
+            env = dict(os.environ, LD_PRELOAD=lib, VFAULT_LOG=logp)
+            rc, out, err = tr.run(t.argv(bindir_rel, w, hx), t.stdin, timeout=30, env=env, cwd=w)
+            counts = {}
+            try:
+                for l in open(logp):
+                    op = l.split()[0]
+                    counts[op] = counts.get(op, 0) + 1
+            except FileNotFoundError:
+                pass
+        for op, n in sorted(counts.items()):
+            ks = range(1, n + 1) if c.tier == "thorough" else sorted(set([1, 2, n // 2 + 1, n]))
+            for k in ks:
+                if 1 <= k <= n:
+                    jobs.append((t, op, k))
+
+    def work(j):
+        t, op, k = j
+        with tr.Scratch(SCRATCH, t) as w:
+            env = dict(os.environ, LD_PRELOAD=lib, VFAULT_ONLY=t.name, VFAULT_OP=op, VFAULT_FD="any", VFAULT_K=str(k), VFAULT_ERRNO="5")
+            argv = ["valgrind", "-q", "--error-exitcode=99", "--trace-children=no", "--child-silent-after-fork=yes"] + t.argv(bindir_rel, w, hx)
+            rc, out, err = tr.run(argv, t.stdin, timeout=120, env=env, cwd=w)
+            return j, rc, err
+
+    with ThreadPoolExecutor(WORKERS) as ex:
+        results = list(ex.map(work, jobs))
+    for (t, op, k), rc, err in results:
+        lines = [l[:300] for l in err[:30000].decode("utf-8", "replace").split("\n")]
+        hits = [l for l in lines if l.startswith("==") and ("uninitialised" in l or "Invalid read" in l or "Invalid write" in l or "Invalid free" in l or "Mismatched free" in l)]
+        c.count(("valgrind-fault", t.label, op, k), bucket="valgrind-under-fault/%s" % ("report" if hits else ("timeout" if rc == "timeout" else "clean")))
+        if hits:
+            c.violation("memcheck-under-fault: %s while %s #%d fails with EIO: %s" % (t.name, op, k, hits[0]),
+                        {"tool": t.label, "executable": t.name, "argv": ["valgrind", "-q"] + t.argv("$BIN", "$W", "$HX"), "stdin_hex": hexs(t.stdin),
+                         "files_hex": {k_: hexs(v) for k_, v in t.files.items()}, "status": rc, "fault": {"op": op, "k": k, "errno": 5},
+                         "report": hits[0], "stderr_tail": "\n".join(lines[:30]),
+                         "how": "VFAULT_ONLY=%s VFAULT_OP=%s VFAULT_FD=any VFAULT_K=%d VFAULT_ERRNO=5 LD_PRELOAD=$HX/libvfault.so valgrind -q %s < stdin" % (
+                             t.name, op, k, " ".join(t.argv("$BIN", "$W", "$HX")))})
+        elif rc == "timeout":
+            c.violation("hang: %s under valgrind while %s #%d fails" % (t.name, op, k), {"tool": t.label, "executable": t.name, "status": rc, "fault": {"op": op, "k": k}, "report": "no termination", "stream": "fault"})
+
+
 def main(argv):
     c = Check("C20", argv)
     ok, blog = build_repo(["all"])
@@ -602,6 +656,7 @@ def main(argv):
     part_formatters(c, drv, kconst)
     part_tools(c, os.path.dirname(repo_bin("x", SAN)), os.path.dirname(hx_bin("x")))
     part_valgrind(c, os.path.dirname(repo_bin("x")), os.path.dirname(hx_bin("x")))
+    part_valgrind_faults(c, os.path.dirname(repo_bin("x")), os.path.dirname(hx_bin("x")))
     if c.tier == "thorough":
         coqchk(c)
     shutil.rmtree(SCRATCH, ignore_errors=True)
